@@ -37,6 +37,8 @@ func c10FS() fstest.MapFS {
 		"chain.vuego":        f(`<p v-if="z">z</p><p v-else-if="t" v-for="x in xs">{{ x }}</p><p v-else>e</p><template v-for="(i, x) in xs"><span v-if="i">{{ i }}:{{ x }}</span></template><div v-once v-for="x in xs">{{ x }}</div>`),
 		"fm.vuego":           f("---\nwho: front\nadded: yes\n---\n<p>{{ who }} {{ added }} {{ a }}</p>"),
 		"bad-filter.vuego":   f(`<p>{{ who }}</p><p>{{ who | nosuchfilter }}</p>`),
+		"bad-late.vuego":     f(`<p title="t={{ who }} {{ a | nosuch2 }}">x</p><p>token={{ who }} / {{ who | nosuchfilter }}</p>`),
+		"assign.vuego":       f(`<template :hits="z + 1" section="admin"></template><p>{{ hits }} {{ section }} {{ who }}</p><template v-for="x in xs" :last="x"></template><i>{{ last }}</i>`),
 		"bad-include.vuego":  f(`<p>{{ who }}</p><template include="comp/none.vuego"></template>`),
 		"bad-required.vuego": f(`<p>a</p><template include="comp/card.vuego"></template>`),
 		"bad-layout.vuego":   f("---\nlayout: nolayout\n---\n<p>x</p>"),
@@ -64,7 +66,7 @@ func c10Struct() any {
 
 func c10Catalogue() []c10Prog {
 	var ps []c10Prog
-	files := []string{"attrs.vuego", "maploop.vuego", "include.vuego", "layout.vuego", "filters.vuego", "chain.vuego", "fm.vuego", "bad-filter.vuego", "bad-include.vuego", "bad-required.vuego", "bad-layout.vuego"}
+	files := []string{"attrs.vuego", "maploop.vuego", "include.vuego", "layout.vuego", "filters.vuego", "chain.vuego", "fm.vuego", "assign.vuego", "bad-late.vuego", "bad-filter.vuego", "bad-include.vuego", "bad-required.vuego", "bad-layout.vuego"}
 	for _, f := range files {
 		ps = append(ps, c10Prog{name: "load:" + f, entry: "LoadRender", page: f, data: c10Data})
 		if f != "layout.vuego" && f != "bad-layout.vuego" {
@@ -100,7 +102,11 @@ func deepCopy(v any) any {
 	return v
 }
 func (e *c10Engine) run(p c10Prog) (out string, errs string, dataChanged string) {
-	data := p.data()
+	return e.runWith(p, p.data())
+}
+
+// runWith renders p with the given (possibly caller-retained) data value.
+func (e *c10Engine) runWith(p c10Prog, data any) (out string, errs string, dataChanged string) {
 	before := fmt.Sprintf("%#v", data)
 	snapshot := reflect.ValueOf(data)
 	_ = snapshot
@@ -197,6 +203,28 @@ func runC10(r *Run) {
 			e := c10NewEngine()
 			check(e, p, "pair:"+p.name+">"+q.name+":1", []string{p.name})
 			check(e, q, "pair:"+p.name+">"+q.name+":2", []string{p.name, q.name})
+		}
+	}
+	// (b2) one caller-owned data map kept across consecutive renders of different programs
+	for _, p := range progs {
+		for _, q := range progs {
+			if fmt.Sprintf("%T", p.data()) != "map[string]interface {}" || fmt.Sprintf("%T", q.data()) != "map[string]interface {}" {
+				continue
+			}
+			e := c10NewEngine()
+			shared := c10Data()
+			for step, x := range []c10Prog{p, q, p} {
+				o, er, ch := e.runWith(x, shared)
+				r.Eval(fmt.Sprintf("shared:%s>%s:%d", p.name, q.name, step), true, nil)
+				if ch != "" {
+					r.Fail("a render modified the caller's data", map[string]string{"oracle": "caller-data", "prog": x.name}, map[string]any{"prog": x.name, "change": ch, "sequence": []string{p.name, q.name, p.name}})
+					break
+				}
+				if want := ref[x.name]; want != [2]string{o, er} {
+					r.Fail("a render with data the caller used before differs from a fresh engine with fresh data", map[string]string{"oracle": "used-vs-fresh", "prog": x.name},
+						map[string]any{"prog": x.name, "sequence": []string{p.name, q.name, p.name}, "fresh": want, "observed": [2]string{o, er}})
+				}
+			}
 		}
 	}
 	// (c) random sequences
